@@ -60,8 +60,10 @@ def make_judges(ctx):
             return
         cname = CANON.get(name, name)
         fkw = dict(fkw or {})
-        if cname == 'clip' and fkw.get('method') in ('raw', 'repr'):
-            fkw.pop('method')       # (both calculation methods give the clipped values: every value of the quantifier is an exact double)
+        if fkw.get('method') in ('raw', 'repr'):
+            # (both calculation methods give the exact results: every value of the quantifier - operands and results of up to 53 bits - is an exact double)
+            if fkw.pop('method') == 'repr' and cname != 'clip':
+                ctx.floor_hit(('value-method', cname if cname in ('prod', 'sum') else 'other'))
         if set(fkw) - ALLOWED_KW:
             ctx.skip('red:keyword outside the model (out/sizing/...)')
             return
@@ -241,7 +243,7 @@ def floors(tier):
     cells += [('clip_bounds', b) for b in ('float/float', 'ndarray/ndarray', 'list/list', 'Fxp/Fxp', 'float/none', 'none/float')]
     cells += [('clip_bounds_other_format',), ('clip_value_method_fxp_bounds',), ('clip_min_max_keywords',), ('clip_narrow_numpy_bound', 'i'), ('clip_narrow_numpy_bound', 'u'), ('clip_narrow_numpy_bound', 'f'), ('clip_beyond_range', 's'), ('clip_beyond_range', 'u')]
     cells += [('edge_format', f) for f in ('sum', 'cumsum', 'prod', 'cumprod', 'dot', 'clip', 'max', 'sort')]
-    cells += [('acc_significant_bits>24', 'dot'), ('acc_significant_bits>11', 'dot'), ('acc_significant_bits>11', 'sum'), ('noncontiguous_operand',)]
+    cells += [('acc_significant_bits>24', 'dot'), ('acc_significant_bits>11', 'dot'), ('acc_significant_bits>11', 'sum'), ('noncontiguous_operand',), ('value-method', 'prod'), ('value-method', 'sum'), ('value-method-integer-product-beyond-64-bits',)]
     return cells
 
 
@@ -354,6 +356,33 @@ def run_case(case, ctx):
             _try(lambda: x.cumprod(**kw))
     _try(lambda: fm.sum(x))
     _try(lambda: fm.cumsum(x))
+    # the value based method gives the same exact results (integer-valued formats - a fraction length <= 0 - are calculated with integers there:
+    # their sums and products must not wrap around in 64 bits integers)
+    if (i // 3) % 4 == 0:
+        for ax in axes[:2]:
+            kw = {'method': 'repr'} if ax is None else {'axis': ax, 'method': 'repr'}
+            _try(lambda: x.sum(**kw))
+            _try(lambda: fm.cumsum(x, **kw))
+            _try(lambda: x.max(**kw))
+            if w * (size if ax is None else shape[ax]) <= 53:
+                _try(lambda: x.prod(**kw))
+                _try(lambda: fm.prod(x, **kw))
+                _try(lambda: x.cumprod(**kw))
+        if len(shape) == 2:
+            _try(lambda: x.trace(method='repr'))
+        # integer-valued operands (negative fraction length) at the extremes: the product of the values needs more than 64 bits, the result word stays <= 53
+        nfi = -rng.randint(5, 8)
+        wi = rng.randint(5, 8) if size <= 5 else rng.randint(3, 5)
+        if wi * size <= 53 and (wi - nfi) * size >= 64:
+            loi, hii = R.code_range(s, wi)
+            # (built from the integer VALUES: the object then hands out integers, not doubles)
+            xi = Fxp(np.array([rng.choice([hii, hii, loi, hii - 1]) * 2 ** (-nfi) for _ in range(size)]).reshape(shape), s, wi, nfi)
+            _try(lambda: xi.prod(method='repr'))
+            _try(lambda: fm.prod(xi, method='repr'))
+            _try(lambda: xi.cumprod(method='repr'))
+            _try(lambda: xi.prod())
+            _try(lambda: xi.sum(method='repr'))
+            ctx.floor_hit(('value-method-integer-product-beyond-64-bits',))
     _try(lambda: np.sort(x))
     _try(lambda: np.sort(x, axis=0))
     _try(lambda: np.sort(x, axis=None))            # (the flattened array, sorted)
